@@ -196,23 +196,26 @@ def run_check(cid, tier, jobs=None):
     for key, vs in unknown:
         v = min(vs, key=lambda v: len(json.dumps(jsonable(v["case"]))))
         case = jsonable(v["case"])
-        ok = True
+        # every violation is replayed twice in a fresh process.  A violation that was observed is ALWAYS reported
+        # (exit 1 + VIOLATION line); a replay that raises or does not reproduce is recorded in the replay file and
+        # flagged, it never turns a detection into a harness error.
+        replay_status = "reproduced-twice"
         for _ in range(2):
             try:
                 again = _replay_isolated(cid, json.loads(json.dumps(case)))
             except BaseException:
-                print("HARNESS-NONDETERMINISM: replay raised\n" + traceback.format_exc())
-                return 2
+                print("NOTE: replay of the stored case raised\n" + traceback.format_exc(limit=3))
+                replay_status = "replay-raised"
+                break
             if not any(a["key"] == key for a in again):
-                ok = False
-        if not ok:
-            print(f"HARNESS-NONDETERMINISM: violation {key} did not reproduce on replay: {v['message']}")
-            return 2
+                replay_status = "not-reproduced-in-isolation"
+        if replay_status != "reproduced-twice":
+            print(f"NOTE: violation {key}: {replay_status} (it was observed in the exploration run and is reported regardless)")
         h = hashlib.sha1(json.dumps([key, case], sort_keys=True).encode()).hexdigest()[:10]
         path = os.path.join(outdir, "replays", f"{cid}-{h}.json")
         with open(path, "w") as f:
             json.dump({"property": cid, "key": key, "tier": tier, "case": case,
-                       "message": v["message"], "count": len(vs)}, f, indent=1)
+                       "message": v["message"], "count": len(vs), "replay_status": replay_status}, f, indent=1)
         lines.append(f"VIOLATION property={cid} replay={path}")
         print(f"  [{key}] x{len(vs)}: {v['message']}")
         rc = 1
